@@ -188,12 +188,54 @@ Example C07_refused_span_commit_run :
   end = true.
 Proof. exact refused_span_commit_run. Qed.
 
-(* not a soundness matter, reported for C11 ("gives back everything"): a fresh segment whose first span commit is refused
-   stays cached without a used page, and a forced collect does not release its arena block *)
-Example C07_empty_segment_cached_after_refusal :
+(* repair of mi_segments_page_alloc (a fresh segment that its retry left without a page is freed again):
+   segments never stay owned without pages.  For every operation, oracle and choice argument -- no invariant is needed --
+   a segment of the new state without a live page was (by its base) already a segment without a live page before the
+   operation (unused_incl); hence when every segment has a live page this remains so (no_unused_segment), and it is so
+   after any history from the initial state of an arena.
+     seg_bases st := map sg_base (st_segs st)
+     unused_incl st st' := forall b, In b (seg_bases st') -> seg_has_live b (st_live st') = false ->
+                                     In b (seg_bases st) /\ seg_has_live b (st_live st) = false
+     no_unused_segment st := forall s, In s (st_segs st) -> seg_has_live (sg_base s) (st_live st) = true *)
+Theorem C07_no_unused_segment : forall c st x o st' r o',
+  step c st x o = Some (st', r, o') ->
+  unused_incl st st' /\ (no_unused_segment st -> no_unused_segment st').
+Proof. exact no_unused_segment_step. Qed.
+Print Assumptions C07_no_unused_segment.
+
+Theorem C07_no_unused_segment_run : forall c ops st o st' rs o',
+  run c st ops o = Some (st', rs, o') -> no_unused_segment st -> no_unused_segment st'.
+Proof. exact no_unused_segment_run. Qed.
+Print Assumptions C07_no_unused_segment_run.
+
+Theorem C07_no_unused_segment_from_init : forall c start nblocks is_committed is_zero ops o st' rs o',
+  run c (state_init start nblocks is_committed is_zero) ops o = Some (st', rs, o') -> no_unused_segment st'.
+Proof. exact no_unused_segment_from_init. Qed.
+Print Assumptions C07_no_unused_segment_from_init.
+
+(* the pre-repair mi_segments_page_alloc (segments_page_alloc_old: `return mi_segments_page_alloc(...)` without the
+   test of segment->used) keeps a fresh segment without a page, (1) when the first span commit in it is refused and
+   (2) when the retry finds the restored span of another segment (the witness found on the real code); the repaired
+   function frees it in both runs *)
+Example C07_segments_page_alloc_old_keeps_unused_segment :
+  (match segments_page_alloc_old ex_cfg ex_state 8 false [WNewArena 2; WSpan ex_seg 1 1 511] [true; false] with
+   | Some (st, None, _) => (commit_inv_b st, unused_count st, a_inuse (st_arena st) 2) | _ => (false, 0, false) end) = (true, 1, true) /\
+  (match segments_page_alloc ex_cfg ex_state 8 false [WNewArena 2; WSpan ex_seg 1 1 511] [true; false] with
+   | Some (st, None, _) => (commit_inv_b st, unused_count st, a_inuse (st_arena st) 2) | _ => (false, 1, true) end) = (true, 0, false) /\
+  (match segments_page_alloc_old ex_cfg ex_state_one_page 16 false ex_ws_retry_elsewhere [false; true; true] with
+   | Some (st, Some p, _) => (commit_inv_b st && (pg_seg p =? ex_seg), unused_count st, a_inuse (st_arena st) 0)
+   | _ => (false, 0, false) end) = (true, 1, true) /\
+  (match segments_page_alloc ex_cfg ex_state_one_page 16 false ex_ws_retry_elsewhere [false; true; true] with
+   | Some (st, Some p, _) => (commit_inv_b st && (pg_seg p =? ex_seg), unused_count st, a_inuse (st_arena st) 0)
+   | _ => (false, 1, true) end) = (true, 0, false).
+Proof. exact segments_page_alloc_old_keeps_unused_segment. Qed.
+
+(* the former observation (a fresh segment whose first span commit is refused stays cached without a used page, and a
+   forced collect does not release its arena block) no longer holds: the segment is freed before the malloc returns NULL *)
+Example C07_unused_segment_freed_after_refusal :
   match run ex_cfg ex_state [OpAlloc 8 false false [[WNewArena 2; WSpan (32768 + 1024) 1 1 511]] [] []; OpCollect []] [true; false] with
   | Some (st, [RNone; RUnit], _) =>
-    commit_inv_b st && (N.of_nat (length (st_live st)) =? 0) && (N.of_nat (length (st_segs st)) =? 1) && a_inuse (st_arena st) 2
+    commit_inv_b st && (N.of_nat (length (st_live st)) =? 0) && (N.of_nat (length (st_segs st)) =? 0) && negb (a_inuse (st_arena st) 2)
   | _ => false
   end = true.
-Proof. exact empty_segment_cached_after_refusal. Qed.
+Proof. exact unused_segment_freed_after_refusal. Qed.
